@@ -62,11 +62,14 @@ def check_extract(spec, ctx):
     pos = rm.positions(L["blocks"], L["strand"])
     if L["strand"] == ".":
         if len(rm.loc_blocks(loc)) > 1 or True:
-            try:
-                s = loc.extract_sequence()
-                ctx.fail("extract_unstranded_accepted", str(s))
-            except InvalidStrandException:
-                ctx.refuse("unstranded")
+            # asked three times: a refusal is not a one-off (the first failed attempt leaves nothing behind that answers later)
+            for attempt in range(3):
+                try:
+                    s = loc.extract_sequence()
+                    ctx.fail("extract_unstranded_accepted" if attempt == 0 else "extract_unstranded_accepted_on_a_later_attempt", str(s))
+                except InvalidStrandException:
+                    if attempt == 0:
+                        ctx.refuse("unstranded")
         return
     if len(rm.sorted_blocks(L["blocks"])) >= 1 and not any(b[1] == b[0] for b in L["blocks"]):
         # the same location assembled from a working list of single intervals that the caller goes on using afterwards
